@@ -100,7 +100,15 @@ def rules(ctx: Ctx) -> None:
     # insertions of a path into the result: <set>.add(tuple(<path>)) where <path> comes from all_simple_paths
     adds = [k for k in prog.walk_fn(gcl) if isinstance(k, ast.Call) and isinstance(k.func, ast.Attribute) and k.func.attr == "add" and k.args
             and isinstance(k.args[0], ast.Call) and isinstance(k.args[0].func, ast.Name) and k.args[0].func.id == "tuple" and k.args[0].args and isinstance(k.args[0].args[0], ast.Name)]
-    ctx.floor("insertions into the result set of get_column_lineage", len(adds), 1)
+    # ... or the same written as one comprehension: `{tuple(path) for ... if len(path) > 1}` - the element is the insertion, its filters are the guard
+    comp_sites = [(c, c.elt) for c in prog.walk_fn(gcl) if isinstance(c, (ast.SetComp, ast.ListComp, ast.GeneratorExp)) and isinstance(c.elt, ast.Call) and isinstance(c.elt.func, ast.Name)
+                  and c.elt.func.id == "tuple" and c.elt.args and isinstance(c.elt.args[0], ast.Name)]
+    ctx.floor("insertions into the result set of get_column_lineage", len(adds) + len(comp_sites), 1)
+    for c, elt in comp_sites:
+        pv = elt.args[0].id
+        conds = [u(a) for g_ in c.generators for i_ in g_.ifs for a in (i_.values if isinstance(i_, ast.BoolOp) and isinstance(i_.op, ast.And) else [i_])]
+        ok = any(t in (f"len({pv}) > 1", f"len({pv}) >= 2", f"not len({pv}) <= 1", f"not len({pv}) < 2", f"len({pv}) != 1 and len({pv}) != 0") for t in conds)
+        ctx.ob("R06.3", "paths-have-at-least-one-hop", ok, loc(gcl.mod, elt), f"`{u(elt)}` must be filtered by a proof that the path has more than one node (all_simple_paths yields [source] when source is target)")
     for k in adds:
         facts = fl.facts_for(k)
         pv = k.args[0].args[0].id
